@@ -88,7 +88,10 @@ def run_worker(cfg, scenarios, workdir, name, timeout=None, binary="worker"):
             f.write(json.dumps(s) + "\n")
     trace = os.path.join(workdir, name + ".trace.ndjson")
     open(trace, "w").close()
-    timeout = timeout or (60 + len(scenarios) // 5)
+    # (scenarios that wait in real time - sleep, waitunban, ripen - get that time on top)
+    waits = sum(x.get("count", 0) for sc in scenarios for stp in sc.get("steps", []) for x in stp.get("stim", []) if x.get("op") in ("sleep", "waitunban"))
+    waits += 2000 * sum(1 for sc in scenarios for stp in sc.get("steps", []) for x in stp.get("stim", []) if x.get("op") == "ripen")
+    timeout = timeout or (60 + len(scenarios) // 5 + waits // 1000)
     done = 0
     info = {"crashes": [], "dead": [], "unrealised": 0, "harness_errors": []}
     part = 0
